@@ -18,7 +18,9 @@ fn fnv(s: &str) -> u64 {
 fn plan_of(seed: u64, index: u64) -> Plan {
     let mut rng = Rng::new(simrt::rng::derive(seed, 0xd19, index));
     // fragment selection is part of the drawn history (clone / serde flags of the plan)
-    gen_plan(&mut rng, &format!("h{}", index), &SwarmOpts { max_variants: 6, max_live_fields: 12, zst: true, clashing_names: true })
+    // one history in twelve is wide (up to 36 live fields)
+    let (max_variants, max_live_fields) = if index % 12 == 11 { (4, 36) } else { (6, 12) };
+    gen_plan(&mut rng, &format!("h{}", index), &SwarmOpts { max_variants, max_live_fields, zst: true, clashing_names: true })
 }
 
 /// (layout table, display text or "<display panicked>", generated code or "<generate panicked>")
